@@ -27,8 +27,11 @@ EXTENDS Notif, Integers, SequencesExt, FiniteSetsExt, Json
 
 CONSTANTS AutoSet,    \* endpoints configured with auto-accept
           Dial,       \* should_dial
-          MaxOpen, MaxClose, MaxCut, MaxRec, MaxFail, MaxSub, MaxStall,
-          KnownTags   \* tags of panic arms / defects already recorded as findings
+          MaxOpen,    \* open commands endpoint X may issue
+          MaxOpenY,   \* ... endpoint Y
+          MaxClose, MaxCut, MaxRec, MaxFail, MaxSub, MaxStall,
+          KnownTags,  \* tags of panic arms / defects already recorded as findings
+          Mut         \* "none", or a seeded defect for the negative configurations of the self-test
 
 VARIABLES w, mon, hist
 vars == <<w, mon, hist>>
@@ -255,7 +258,7 @@ OnHsErr(x, e) ==
   IF s.k = "none" THEN Panic(x1, e, "handshake-peer-missing")
   ELSE IF s.k = "val" THEN
        LET x2 == SetSt(DropState(x1, e), e, Closed(IF s.out = "oi" THEN s.osid ELSE 0)) IN
-       IF s.out # "closed" THEN Rep(x2, e, "openfail") ELSE x2
+       IF s.out # "closed" /\ Mut # "silent_negotiation_error" THEN Rep(x2, e, "openfail") ELSE x2
   ELSE Panic(SetSt(x1, e, [k |-> "poisoned"]), e, "negotiation-error-unexpected-" \o s.k)
 
 -----------------------------------------------------------------------------
@@ -341,7 +344,8 @@ CtNotify(e) ==
 CtReport(e) ==
   \E c \in w.ct[e] :
     /\ c.st = "report"
-    /\ Step([w EXCEPT !.ct[e] = @ \ {c}, !.evq[e] = Append(@, [k |-> "closed", id |-> 0])])
+    /\ Step([w EXCEPT !.ct[e] = @ \ {c},
+                      !.evq[e] = IF Mut = "silent_task_end" /\ c.sig THEN @ ELSE Append(@, [k |-> "closed", id |-> 0])])
 
 -----------------------------------------------------------------------------
 (* environment: the connection (ConnLife guarantees)                          *)
@@ -408,7 +412,7 @@ EnvStallTimeout(e) ==
 -----------------------------------------------------------------------------
 (* the user of the NotificationHandle                                         *)
 UOpen(e) ==
-  /\ w.nOpen[e] < MaxOpen /\ ~w.hopen[e]     \* with hopen the call returns Err(PeerAlreadyExists): nothing happens
+  /\ w.nOpen[e] < (IF e = "X" THEN MaxOpen ELSE MaxOpenY) /\ ~w.hopen[e]     \* with hopen the call returns Err(PeerAlreadyExists): nothing happens
   /\ w' = [w EXCEPT !.cmdq[e] = Append(@, "open"), !.nOpen[e] = @ + 1]
   /\ mon' = [mon EXCEPT ![e] = MonOpen(@, Other(e), "ok")]
   /\ Note([a |-> "open", e |-> e])
